@@ -159,8 +159,17 @@ def body(run):
         lost = sm & ~got
         if lost.any():
             r, c = [int(v) for v in np.argwhere(lost)[0]]
+            cause = 'other'
+            if model == 'gain-offset':
+                # known finding D13: a processing pixel whose 3 x 3 window holds no second jointly valid pixel has no least-squares solution, and an
+                # isolated patch has nothing within reach to be in-painted from.  Only when EVERY lost pixel is of that kind.
+                pm = sm.reshape(ph, ratio, pw, ratio).any(axis=(1, 3))
+                pad = np.pad(pm, 1)
+                cnt = sum(pad[i:i + ph, j:j + pw].astype(int) for i in range(3) for j in range(3))
+                if all(cnt[rr // ratio, cc // ratio] < 2 for rr, cc in np.argwhere(lost)):
+                    cause = 'gain-offset-degenerate-window'
             run.add_violation('a valid source pixel is invalid in the corrected image although the reference is valid there and the data are positive', desc,
-                              observed=dict(pixel=[r, c], n=int(lost.sum())), signature=dict(kind='mask-lost', model=model, cause='other'))
+                              observed=dict(pixel=[r, c], n=int(lost.sum())), signature=dict(kind='mask-lost', model=model, cause=cause))
     run.cov['rule'] = ('real fusions of positive textured data with the reference valid over the footprint: geometries (ratios, sub-pixel offsets with the x.5 / x.25 '
                        'family over-sampled, origins up to 7.6e6), source masks (holes, 1-px islands, borders, a nearly empty block), 3 models, kernels incl. h != w, '
                        '3 grids, source invalidity stored as NaN / finite nodata (-9999, 0, 1000) / internal mask / uint16 0, 1..30 blocks, nearest / bilinear / cubic-spline up-sampling, output nodata NaN / numeric / internal mask on float32 / uint16 / float64: '
